@@ -1,5 +1,6 @@
 SPECIFICATION Spec
-CONSTANTS NP = 1 MaxRuns = 3 MaxTouch = 3
+CONSTANTS MaxRuns = 3 MaxTouch = 3
+  Scens <- ScenPlain1
   Settings <- SettingsQuick
   CreatedSetsChanged = TRUE
   KeepHistory = TRUE
